@@ -14,9 +14,12 @@ from soundevent.evaluation.tasks.sound_event_detection import sound_event_detect
 
 
 def main():
-    s = StandIn("detection_small", "<=3 clips x <=3 annotations x <=3 predictions on a 5-slot time lattice, geometry-less events, vocabulary 3, scores in {0,.25,.5,.75} with row sums <= 1")
+    s = StandIn("detection_small", "<=3 clips x <=3 annotations x <=3 predictions on a 5-slot time lattice, geometry-less events, vocabulary 3 (two tags sharing value and term label), scores in {0,.25,.5,.75} with row sums <= 1")
     rec = data.Recording(path="a.wav", duration=100, channels=1, samplerate=8000)
-    vocab = [data.Tag(term=term_from_key("species"), value=v) for v in "abc"]
+    # the third vocabulary tag shares its value AND its term's label with the first one; only the term's name tells them apart
+    sp = term_from_key("species")
+    twin = data.Term(name="custom:species", label=sp.label, definition="a different term with the same label")
+    vocab = [data.Tag(term=sp, value="a"), data.Tag(term=sp, value="b"), data.Tag(term=twin, value="a")]
     other = data.Tag(term=term_from_key("species"), value="zzz")
     clips = [data.Clip(recording=rec, start_time=float(10 * i), end_time=float(10 * i + 10)) for i in range(4)]
 
@@ -37,10 +40,10 @@ def main():
             return g.coordinates[0], g.coordinates[1]
         return g.coordinates[0], g.coordinates[2]
 
-    ann_choices = [[], [(0, "a")], [(0, "a"), (2, "b")], [(None, "a")], [(0, None)], [(1, "zzz"), (3, "c"), (None, "b")],
+    ann_choices = [[], [(0, "a")], [(0, "c")], [(0, "a"), (2, "b")], [(None, "a")], [(0, None)], [(1, "zzz"), (3, "c"), (None, "b")],
                    [(("stamp", 2.0), "a"), (("point", 5.0, 3000.0), "b")],
                    [(("interval", 1.0, 2.0), "a"), (("interval", 6.0, 7.0), "b")]]
-    pred_choices = [[], [(0, {"a": 0.75})], [(0.2, {"a": 0.5, "b": 0.25})], [(4, {"c": 0.5})], [(None, {"a": 0.5})],
+    pred_choices = [[], [(0, {"a": 0.75})], [(0, {"a": 0.5, "c": 0.25})], [(0.2, {"a": 0.5, "b": 0.25})], [(4, {"c": 0.5})], [(None, {"a": 0.5})],
                     [(0.1, {"b": 0.75}), (2.1, {"b": 0.5, "zzz": 0.25}), (None, {"c": 0.25})], [(0, {}), (0.4, {"a": 0.25})],
                     # zero-extent predictions: far away in time (must stay unpaired), and close in time
                     [(("stamp", 40.0), {"a": 0.75}), (("point", 5.005, 3050.0), {"b": 0.5})], [(("stamp", 2.004), {"a": 0.5}), (("point", 65.0, 3000.0), {"b": 0.75})],
@@ -88,8 +91,8 @@ def main():
                         s.fail("detection_pair_without_overlap", f"{key}: a prediction was paired with an annotation it does not overlap")
                     if abs(m.affinity - aff) > 1e-12:
                         s.fail("detection_affinity", f"{key}: a paired match reports affinity {m.affinity}, the geometric affinity is {aff}")
-                    scores = {pt.tag.value: pt.score for pt in m.source.tags if pt.tag in vocab}
-                    tv = next((t.value for t in m.target.tags if t in vocab), None)
+                    scores = {vocab.index(pt.tag): pt.score for pt in m.source.tags if pt.tag in vocab}    # by equality with the vocabulary's tags
+                    tv = next((vocab.index(t) for t in m.target.tags if t in vocab), None)
                     want = scores.get(tv, 0.0) if tv is not None else 1 - sum(scores.values())
                     if abs((m.score or 0) - want) > 1e-6:
                         s.fail("detection_pair_score", f"{key}: pair score {m.score}, expected {want}")
